@@ -8,6 +8,7 @@ package nsqlookupd
 import (
 	"fmt"
 	"net/http/httptest"
+	"strings"
 	"sync"
 	"sync/atomic"
 	"testing"
@@ -135,4 +136,127 @@ func TestVerifE4Races(t *testing.T) {
 		}
 	}
 	fmt.Printf("RACE create-channel-vs-topic-delete bad=%d rounds=%d\n", torn, rounds)
+
+	// audit B5: GET /lookup?topic=x  ||  loop { POST /channel/create?topic=x&channel=c ; POST /topic/delete?topic=x }.
+	// Every state a serial order of these calls reaches has topic x together with channel c, or neither
+	// (AddTopicChannel / RemoveTopic are one critical section each): an answer 200 with "channels":[] is
+	// explained by no serial order (doLookup = three critical sections; one with fixes/F37).
+	get := func(target string) (int, string) {
+		w := httptest.NewRecorder()
+		env.h.ServeHTTP(w, httptest.NewRequest("GET", target, nil))
+		return w.Code, w.Body.String()
+	}
+	{
+		var stop int32
+		var wg sync.WaitGroup
+		wg.Add(1)
+		go func() {
+			defer wg.Done()
+			for atomic.LoadInt32(&stop) == 0 {
+				post("/channel/create?topic=x&channel=c")
+				post("/topic/delete?topic=x")
+			}
+		}()
+		torn, rounds, n200 := 0, 0, 0
+		deadline = time.Now().Add(budget)
+		for time.Now().Before(deadline) && torn < 3 {
+			code, body := get("/lookup?topic=x")
+			rounds++
+			if code == 200 {
+				n200++
+				if strings.Contains(body, `"channels":[]`) {
+					torn++
+				}
+			}
+		}
+		atomic.StoreInt32(&stop, 1)
+		wg.Wait()
+		fmt.Printf("RACE lookup-vs-topic-delete bad=%d rounds=%d\n", torn, rounds)
+		fmt.Printf("HIST race lookup-vs-topic-delete answers200=%d of %d\n", n200, rounds)
+	}
+
+	// GET /nodes  ||  loop { POST /topic/delete?topic=y ; REGISTER y (conn 1) ; REGISTER y (conn 3) }: the states a
+	// serial order reaches are {}, {1}, {1,3} — a /nodes answer listing y for node 3 but not for node 1 is
+	// explained by none (doNodes = 1 + 2n critical sections; one with fixes/F37).
+	{
+		cb := env.conn(3)
+		var stop int32
+		var wg sync.WaitGroup
+		wg.Add(1)
+		go func() {
+			defer wg.Done()
+			for atomic.LoadInt32(&stop) == 0 {
+				post("/topic/delete?topic=y")
+				vfE4Cmd(ca, "REGISTER y")
+				vfE4Cmd(cb, "REGISTER y")
+			}
+		}()
+		torn, rounds := 0, 0
+		deadline = time.Now().Add(budget)
+		for time.Now().Before(deadline) && torn < 3 {
+			_, body := get("/nodes")
+			rounds++
+			// node 1 announces broadcast address hA, node 3 hB
+			has := map[string]bool{}
+			for _, part := range strings.Split(body, `{"remote_address"`)[1:] {
+				who := ""
+				if strings.Contains(part, `"broadcast_address":"hA"`) {
+					who = "A"
+				} else if strings.Contains(part, `"broadcast_address":"hB"`) {
+					who = "B"
+				}
+				has[who] = strings.Contains(part, `"y"`)
+			}
+			if has["B"] && !has["A"] {
+				torn++
+			}
+		}
+		atomic.StoreInt32(&stop, 1)
+		wg.Wait()
+		vfE4Cmd(ca, "UNREGISTER y")
+		vfE4Cmd(cb, "UNREGISTER y")
+		fmt.Printf("RACE nodes-vs-topic-delete bad=%d rounds=%d\n", torn, rounds)
+	}
+}
+
+// audit B6: POST /topic/tombstone writes Producer.tombstoned / tombstonedAt (p.Tombstone()) after FindProducers has
+// released the lock, while GET /lookup, /nodes, /debug read them. Meant for a binary built with -race: the Go race
+// detector is the oracle (its report is parsed by props/C14.py). Without -race the test only exercises the paths.
+func TestVerifE4TombstoneRace(t *testing.T) {
+	ms := vfEnvInt("VERIF_MS", 1200)
+	env := vfE4Start(false, []string{"t"})
+	defer env.Stop()
+	env.Exec(fmt.Sprintf("%d identify 1 6841 6e41 7631 4150 4151", env.vnow))
+	env.Exec(fmt.Sprintf("%d identify 3 6842 6e42 7631 4150 4151", env.vnow))
+	vfE4Cmd(env.conn(1), "REGISTER t")
+	vfE4Cmd(env.conn(3), "REGISTER t")
+	do := func(method, target string) int {
+		w := httptest.NewRecorder()
+		env.h.ServeHTTP(w, httptest.NewRequest(method, target, nil))
+		return w.Code
+	}
+	var stop int32
+	var wg sync.WaitGroup
+	wg.Add(1)
+	nw := 0
+	go func() {
+		defer wg.Done()
+		for atomic.LoadInt32(&stop) == 0 {
+			if do("POST", "/topic/tombstone?topic=t&node=hA:4151") != 200 {
+				vfE4GiveUp("tombstone race leg: POST /topic/tombstone not 200")
+			}
+			nw++
+		}
+	}()
+	rounds := 0
+	deadline := time.Now().Add(time.Duration(ms) * time.Millisecond)
+	for time.Now().Before(deadline) {
+		do("GET", "/lookup?topic=t")
+		do("GET", "/nodes")
+		do("GET", "/debug")
+		rounds++
+	}
+	atomic.StoreInt32(&stop, 1)
+	wg.Wait()
+	fmt.Printf("TOMBRACE rounds=%d tombstones=%d\n", rounds, nw)
 }
